@@ -142,6 +142,12 @@ func resolveDefault(internals *core.ZodTypeInternals) any {
 // arrays, pointers and interface values are copied too, so a caller that mutates a value
 // returned by Parse can never change what a later Parse returns.
 func cloneDefaultValue(v any) any {
+	return CloneDefaultValue(v)
+}
+
+// CloneDefaultValue is the copy every nil-input path must hand out instead of the schema's own
+// DefaultValue / PrefaultValue (schema types with a nil path of their own use it directly).
+func CloneDefaultValue(v any) any {
 	if v == nil {
 		return nil
 	}
